@@ -84,3 +84,29 @@ package route
 //@   assert before go: sdSwapped && sdDeadline
 //@   assert before Deregister: sdSwapped && sdDeadline && sdHooks
 //@   assert before Shutdown: sdSwapped && sdDeadline && sdHooks && arg1 == sdCtx
+
+// ---- C12 (dispatch): the engine runs handlers only through the chain interpreter: it installs a chain
+// (SetHandlers) and then calls Next, or goes through serveError, which does the same; it never calls a handler
+// value itself (a handler entered outside Next runs with the chain index still at -1 and can be entered again).
+// The chain installed for a matched route is the one the router returned for it; the bad-request paths get the
+// engine middleware, the 405 path allNoMethod, the 404 path allNoRoute.
+//@ ghost var shChain bool
+//@ func Engine.ServeHTTP(engine, c, ctx)
+//@   props C12
+//@   abstract
+//@   noinline
+//@   modifies shChain
+//@   ghostset-at-entry shChain = false
+//@   ghostset after SetHandlers: shChain = true
+//@   assert before Next!: shChain
+//@   assert before serveError: shChain
+//@   assert before HandlerFunc!: false
+//@   ghostset after Next!: shChain = false
+//@   ghostset after serveError: shChain = false
+
+//@ func serveError(c, ctx, code, defaultMessage)
+//@   props C12
+//@   abstract
+//@   noinline
+//@   assert before HandlerFunc!: false
+
